@@ -4,8 +4,10 @@
    relationship value from the memo ([p_refix] = true); a result that is an AlternativeMapping instance is replaced by
    create_from_dao() -- a NEW object -- and only then is the memo entry overwritten ([p_late]), so whoever looked
    the entry up while the mapping object was in progress keeps the mapping object (finding C04-a).
-   The state is a parameter: FromDAOState can be passed in by the caller and reused across calls (finding C04-b:
-   the memo is keyed by id() of DAOs it does not keep alive). *)
+   The state is a parameter: FromDAOState can be passed in by the caller and reused across calls.  Since repo commit
+   32013a0 allocate_and_memoize also stores keep_alive[id(dao)] = dao ([p_keep] = true), so a memoised DAO's address
+   cannot be recycled; before that commit it could (finding C04-b / C04-c, now fixed: [P_fromdao_old], regression
+   examples in RoundTrip.v). *)
 From Coq Require Import List ZArith Bool Lia Arith PeanoNat.
 From Krrood Require Import Orm.ObjGraph Orm.ObjGraphWalk Orm.ToDao.
 Import ListNotations.
@@ -17,7 +19,13 @@ Fixpoint zassoc_inv (m : Z) (l : list (Z * Z)) : option Z :=
   end.
 
 Definition P_fromdao (alts : list (Z * Z)) : params :=
-  mkParams (fun k => k) (fun k => zassoc_inv k alts) true.
+  mkParams (fun k => k) (fun k => zassoc_inv k alts) true true.
+
+(* the code before repo commit 32013a0: FromDAOState had no keep_alive *)
+Definition P_fromdao_old (alts : list (Z * Z)) : params :=
+  mkParams (fun k => k) (fun k => zassoc_inv k alts) true false.
+Definition from_dao_old (alts : list (Z * Z)) (d : heap) (n : nat) (r : addr) (s : st) : option (addr * st) :=
+  walk (P_fromdao_old alts) d (S n) r s.
 
 (* [d] is the DAO heap with addresses 0..n-1 *)
 Definition from_dao (alts : list (Z * Z)) (d : heap) (n : nat) (r : addr) (s : st) : option (addr * st) :=
